@@ -157,6 +157,34 @@ def main(tier):
                         M("(if (op eq f64 (a) (lit 0.0 f64)) (Ok (lit 0.0 f64)) (Ok (call f64::signum (a))))", tf) is not None
                 run.ob(ok, "float|%s|%s|%s" % (kind, s, tag), "C15 with a Float operand eval_number's numeric value is eval_f64's operation on the operands' double values",
                        "%s %r (%s)" % (W, s, tag), "number: %s ; f64: %s" % (T.show(val)[:160], T.show(tf)[:160]), sample={"surface": s, "operands": tag, "term": T.show(tf)[:100]} if len(run.samples) < 10 else None)
+    # 3a'. x! with a Float operand: eval_number's arm, with its Float / Number::from wrappers removed, is eval_f64's arm on the operand's
+    # double value for every non-negative operand and every non-integer (negative whole numbers are outside the comparison: eval_f64
+    # answers NaN there, which is not a finite value)
+    if "eval_number" in models and "eval_f64" in models:
+        rn_, _ = chain.postfix_chain(models["eval_number"], "!")
+        rf_, _ = chain.postfix_chain(models["eval_f64"], "!")
+        okf, dn = False, ""
+        if rn_ and rf_:
+            def unwrap(x):
+                if isinstance(x, tuple):
+                    if len(x) == 2 and x[0] in ("F", "N"):
+                        return unwrap(x[1])
+                    return tuple(unwrap(y) for y in x)
+                return x
+
+            def sub(x):
+                if isinstance(x, tuple):
+                    if x == ("ev", ("A0",)) or x == ("ev", ("C0",)):
+                        return ("a",)
+                    return tuple(sub(y) for y in x)
+                return x
+            tn_ = T.alpha(unwrap(canon(chain.peval(rn_[1], {("ev", ("A0",)): FLT("a")}))))
+            tf_ = T.alpha(sub(rf_[1]))
+            en = M(("if", ("op", "ge", "f64", ("a",), ("lit", "0.0", "f64")), "?nonneg", "?neg"), tn_)
+            ef = M(("if", ("op", "ge", "f64", ("a",), ("lit", "0.0", "f64")), "?nonneg", ("if", "_", "_", "?negfrac")), tf_)
+            okf = en is not None and ef is not None and en["?nonneg"] == ef["?nonneg"] and en["?neg"] == ef["?negfrac"]
+            dn = "number: %s ; f64: %s" % (T.show(tn_)[:200], T.show(tf_)[:200])
+        run.ob(okf, "float|post|!|F", "C15 x! of a Float in eval_number is eval_f64's x! on the same double (non-negative operands and non-integers)", "%s '!'" % where(models["eval_number"], "::ast::eval"), dn)
     # 3b. variadic min / max: the three evaluators with a shared integer / float grammar select with the minimum /
     # maximum of their own value type (eval_number: on the operands' double values, returning the operand itself) --
     # then min/max of the same arguments is the same number in all three
